@@ -134,6 +134,10 @@ def h5_registry(R=None):
         if ds.fields['file'].fields['mode'] == 'r':
             raise PyRaise(ExcVal('OSError', ('read-only file',)))
         from pyvc.lib import setitem
+        if ip.ghost.get('h5_write_may_fail') and ip.may_raise('h5-write-fails'):
+            # a writer can die at any data-set write (disk full, interrupt): scenario switch of C17
+            ip.log.append(('dataset-write-failed', ds.fields['name']))
+            raise PyRaise(ExcVal('OSError', ('write failed',)))
         ip.log.append(('dataset-write', ds.fields['name'], idx))
         setitem(ip, ds.fields['items'], idx, val)
 
